@@ -55,6 +55,15 @@ def word(v, n):
     return list((v % (1 << (8 * n))).to_bytes(n, "little"))
 
 
+def fsize(fmt):
+    """size of a variable format; a byte-order prefix ("<", ">", "!") does not count"""
+    return FMT_SIZE[fmt[-1]]
+
+
+def big(fmt):
+    return fmt[0] in ">!"
+
+
 def statement(tree, dst, use_kernel=False, scope=None, alias_dst=False):
     """dst: ("var", fmt) | ("local", fmt) | ("reg", kind) | ("hash", fmt).  Leaves may also be ("hash", fmt): a
     hash-map variable (its value is looked up with a helper call).  scope: None, or the name of a temporary
@@ -161,7 +170,7 @@ def statement(tree, dst, use_kernel=False, scope=None, alias_dst=False):
         if t[0] == "hash":
             return dict(k="var", fmt=t[1], fd=hfd, off=keyof(f"in{slot[id(t)]}"))
         if t[0] in ("var", "local"):
-            return dict(k="var", fmt=t[1], fd=1, off=inst.__dict__[f"in{slot[id(t)]}"])
+            return dict(k="var", fmt=t[1][-1], fd=1, off=inst.__dict__[f"in{slot[id(t)]}"])
         if t[0] == "reg":
             return dict(k="reg", kind=t[1], fd=1, off=inst.__dict__[f"in{slot[id(t)]}"])
         if t[0] == "const":
@@ -181,13 +190,13 @@ def statement(tree, dst, use_kernel=False, scope=None, alias_dst=False):
             inputs.append((("hash", key), FMT_SIZE[fmt], fmt.islower()))
             continue
         off = inst.__dict__[f"in{i}"]
-        leafrecs.append(dict(fd=1, off=off, len=FMT_SIZE[fmt]))
-        inputs.append((off, FMT_SIZE[fmt], fmt.islower()))
-    dsize = (4 if dst[1] in ("w", "sw") else 8) if dst[0] == "reg" else FMT_SIZE[dst[1]]
+        leafrecs.append(dict(fd=1, off=off, len=fsize(fmt), be=big(fmt)))
+        inputs.append((off, fsize(fmt), fmt[-1].islower(), big(fmt)))
+    dsize = (4 if dst[1] in ("w", "sw") else 8) if dst[0] == "reg" else fsize(dst[1])
     if dst[0] == "hash":
         drec = dict(fd=hfd, off=0, size=dsize, key=[keyof("out")])
     else:
-        drec = dict(fd=1, off=inst.__dict__["out"], size=dsize)
+        drec = dict(fd=1, off=inst.__dict__["out"], size=dsize, be=dst[0] != "reg" and big(dst[1]))
     from ebpfcat.hashmap import HashGlobalVarDesc
     hashkeys = [v.count for v in ns.values() if isinstance(v, HashGlobalVarDesc)]
     return dict(built=b, ast=ast(tree), leaves=leafrecs, n=n, inputs=inputs, dst=drec,
@@ -198,12 +207,13 @@ def case(st, values):
     """a Codegen.tla case: `values` = one integer per leaf (taken modulo the leaf's size)"""
     buf = bytearray(st["mapsize"])
     hv = {k: bytes(8) for k in st.get("hashkeys", ())}       # every hash variable exists (as after load())
-    for (off, size, _), v in zip(st["inputs"], values):
+    for (off, size, *rest), v in zip(st["inputs"], values):
         if isinstance(off, tuple):
             # the 8-byte entry of a hash variable: its value in the low bytes, the rest is not the variable's
             hv[off[1]] = bytes(word(v, size)) + bytes([0xA5] * (8 - size))
         else:
-            buf[off:off + size] = bytes(word(v, size))
+            be = len(rest) > 1 and rest[1]
+            buf[off:off + size] = bytes(word(v, size)[::-1] if be else word(v, size))
     c = progs.case(st["built"], arr={1: bytes(buf)},
                    hashes=[(st["hfd"], bytes([k]), v) for k, v in sorted(hv.items())])
     c.update(ast=st["ast"], leaves=st["leaves"], n=st["n"], dst=st["dst"])
